@@ -240,10 +240,27 @@ func c09Run(t *testing.T, p *world.PKI, cc cfgCase, clientSends bool, seq string
 					defer cancel()
 					return x.Conn.UpdateKeys(ctx, dtls.KeyUpdateOptions{})
 				}))
+			// the kind of error the transport reports varies with the hold index of the case: a plain error, a
+			// deadline (timeout) error, a temporary non-timeout error: code that looks at the KIND of a transport
+			// error before deciding what the failed send means has all three to look at
 			case opFail:
-				x.PC.FailNextWrites(1, errors.New("injected transient send error"))
+				switch hold {
+				case 1:
+					x.PC.FailNextWrites(1, world.TimeoutNetErr{})
+				case 2:
+					x.PC.FailNextWrites(1, world.TempNetErr{})
+				default:
+					x.PC.FailNextWrites(1, errors.New("injected transient send error"))
+				}
 			case opLate:
-				x.PC.FailNextWritesAfterSend(1, errors.New("injected send error reported after the datagram left"))
+				switch hold {
+				case 1:
+					x.PC.FailNextWritesAfterSendZero(1, world.TimeoutNetErr{})
+				case 2:
+					x.PC.FailNextWritesAfterSend(1, world.TempNetErr{})
+				default:
+					x.PC.FailNextWritesAfterSend(1, errors.New("injected send error reported after the datagram left"))
+				}
 			case opClose:
 				ops = append(ops, w.GoNoSkew("Close", func(*world.Op) error { return x.Conn.Close() }))
 			}
@@ -596,6 +613,7 @@ func TestC09(t *testing.T) {
 			}
 		}
 	}
+	cases = append(cases, deadlineLateCases(p, env.Thorough(), env.Seed+1)...)
 	for _, cc := range mtuConfigs() {
 		for _, clientSends := range []bool{true, false} {
 			side := "server"
